@@ -59,7 +59,14 @@
 (*               VoxelHasRow    the discretised row lies in the            *)
 (*                              get_voxel_idx window                       *)
 (*    emission   EmitWalk prints every behaviour of length Depth           *)
-(*    bounds     walks of Depth conversions; constant sets W*              *)
+(*    bounds     walks of Depth conversions; constant sets W*; lengths in  *)
+(*               half steps of 1/2, 1, 3 and of 1/10, 3/7 (not binary      *)
+(*               fractions: no float of the implementation is exact, the   *)
+(*               harness then accepts either neighbour at an exact tie)    *)
+(*    covariant  (harness side, the model is unchanged): omega handed over *)
+(*               as the angle -1 / 0 / +1 whole turns (Ang is a class mod  *)
+(*               360); scalar or array arguments, the elements of an array *)
+(*               being the walks of a group that differ in the angle       *)
 (*                                                                         *)
 (* 2. RECON (InitRecon / NextRecon)          binding mode A                *)
 (*    variables  cfg (sx, sy, y0, ystep, ymin, ny, scan, padmode), stage,  *)
@@ -75,15 +82,47 @@
 (*               with zero-padded shifts is increasing iff |shift| < 1;    *)
 (*               rec.ximono is emitted: where it is FALSE np.interp is     *)
 (*               outside its contract and ROI independence is not implied),*)
-(*               XiEdgeIncreasing (edge-padded shifts: always increasing)  *)
+(*               XiEdgeIncreasing (edge-padded shifts: always increasing), *)
+(*               FitInverts (fit_sine_wave / sx_sy_y0_from_dty_omega: the  *)
+(*               in-beam dty at three distinct angles determines sx, sy,   *)
+(*               y0 exactly; rec.fit is what a fit has to return)          *)
 (*    emission   EmitRecon prints one record per finished case             *)
+(*    covariant  (harness side): the scan written with omega + 360 k, in   *)
+(*               decreasing 2 degree steps, with an offset start; the      *)
+(*               sinogram dtype (float64 / float32); interpolant and       *)
+(*               filter of iradon (the frame laws and PART do not mention  *)
+(*               them).  With ystep 1/10 ceil / floor of an exact integer  *)
+(*               may fall on the far side in the implementation's floats   *)
+(*               (pad + 1, grid one wider each side): the prediction       *)
+(*               step + shape // 2 is then taken for the actual shape      *)
 (*                                                                         *)
 (* 3. PART  (InitPart / NextPart)            bound by recorded jobs        *)
-(*    variables  cfg (n angles, w workers), jobs                           *)
-(*    action     TakeJob: jobs[j] = todo[j::w]                             *)
-(*    invariants JobsDisjointSoFar, PartitionOK (every angle in exactly    *)
-(*               one job, each job increasing)                             *)
-(*    bounds     n <= PMaxN, w <= PMaxW                                    *)
+(*    roi_iradon.iradon 190-201: the request `workers` (None / < 1 stand   *)
+(*    for cores_available()) becomes a thread pool of POOL workers and the *)
+(*    jobs [todo[j::STRIDE] for j in range(POOL)]; the code has            *)
+(*    STRIDE = POOL = workers (EffWorkers / PoolOf / StrideOf).            *)
+(*    variables  cfg (n angles, w stride, p pool size = number of jobs),   *)
+(*               jobs                                                      *)
+(*    action     TakeJob: jobs[j] = todo[j::w] while j < p                 *)
+(*    invariants JobsDisjointSoFar, JobsWellFormed,                        *)
+(*               PartitionCharacterised  for EVERY pair (w, p): the jobs   *)
+(*                 are a partition iff min(w, n) <= p and (p <= w or       *)
+(*                 n <= w) - a pool capped below the stride is not one,    *)
+(*               DroppedCharacterised (which projections such a pool       *)
+(*                 loses), CodeLawIsPartition (the pair the code derives   *)
+(*                 from any request 0..PMaxW on any number 1..PMaxP of     *)
+(*                 usable cpus is a partition), PartitionOK (p = w)        *)
+(*    emission   EmitPart: one record per (n, w, p) with jobs, ok, ndrop,  *)
+(*               ndup, law (= the code's law can produce the pair)         *)
+(*    bounds     n <= PMaxN, w <= PMaxW, p <= PMaxP                        *)
+(*    binding    the pool size and the jobs the real iradon hands to its   *)
+(*               pool are recorded (a) in this process for every (n, w)    *)
+(*               and (b) in child processes whose cpu affinity mask is     *)
+(*               restricted to 1, 2, 3 cpus (with and without the          *)
+(*               OMP_NUM_THREADS / SLURM_* / NUMBER_OF_PROCESSORS          *)
+(*               variables of a batch allocation) for requests 1..16,      *)
+(*               None, -1; the recorded pair must be the law's record and  *)
+(*               the reconstruction must equal the one-worker one          *)
 (***************************************************************************)
 EXTENDS ExactLA, Json
 
@@ -91,7 +130,7 @@ CONSTANTS
   Depth,                                    \* length of the emitted walks
   WAng, WCombo, WStart,                    \* walk scope: angles, <<pos/2, y0/2, ystep, shape, dty0/2, ymin/2>>, start frames
   RNy, ROffH, RPosQ, RYstep, RScan, RPadMode, RYminMode,        \* recon scope
-  PMaxN, PMaxW                                                  \* partition scope
+  PMaxN, PMaxW, PMaxP                                           \* partition scope: angles, stride (workers), pool size
 
 VARIABLES cfg, frame, pos, dty, phase, dtyi, seen, op, stage, rec, jobs
 vars == <<cfg, frame, pos, dty, phase, dtyi, seen, op, stage, rec, jobs>>
@@ -104,25 +143,27 @@ Frames == {"lab", "sample", "step", "recon"}
 AngQuick   == { <<0,1,1>>, <<-1,0,1>>, <<3,-4,5>>, <<-7,24,25>> }
 \* a walk combo is << P0 in half steps, y0 in half steps, ystep, recon_shape, dty0 in half steps, ymin in half steps >>
 ComboQuick == { << <<7,4>>,   -7,  <<1,2>>, <<9,12>>,  5, -13 >>,
-                << <<-5,8>>,  20,  <<1,1>>, <<10,7>>,  5, -13 >>,
-                << <<-6,-3>>,  3,  <<3,1>>, <<9,12>>, -9,   6 >>,
-                << <<9,-2>>, -20,  <<1,1>>, <<10,7>>,  0, -40 >> }
+                << <<-5,8>>,  20,  <<1,10>>, <<10,7>>, 5, -13 >>,      \* steps that are not binary fractions:
+                << <<-6,-3>>,  3,  <<3,1>>, <<9,12>>, -9,   6 >>,      \* no float of the implementation is exact
+                << <<9,-2>>, -20,  <<1,1>>, <<10,7>>,  0, -40 >>,
+                << <<7,-4>>,  11,  <<3,7>>, <<9,12>>, -9,   6 >> }
 PosFour    == { <<7,4>>, <<-5,8>>, <<-6,-3>>, <<9,-2>> }            \* half steps, one per quadrant
-YstepAll   == { <<1,2>>, <<1,1>>, <<3,1>> }
+YstepAll   == { <<1,2>>, <<1,1>>, <<3,1>>, <<1,10>> }              \* 1/10: not a binary fraction
+YstepQuick == { <<1,2>>, <<3,1>>, <<1,10>> }
 ShapeTwo   == { <<9,12>>, <<10,7>> }
 ComboThor  == ComboQuick \cup
               { << P, y, s, IF (P[1] + y + s[1]) % 2 = 0 THEN <<9,12>> ELSE <<10,7>>, 5, -13 >> :
                    P \in { <<7,4>>, <<-6,-3>> }, y \in { -7, 20 }, s \in YstepAll }
               \cup { << <<0,5>>, 0, <<1,2>>, <<8,8>>, 0, 6 >>, << <<-4,0>>, -1, <<3,1>>, <<11,11>>, -9, -40 >>,
                      << <<0,0>>, 13, <<1,1>>, <<1,2>>, 5, -13 >> }
-\* a spread-out 1/11 sample of the product (simulation enumerates all initial states first)
+\* a spread-out 1/13 sample of the product (simulation enumerates all initial states first)
 ComboSim   == { K \in { << P, y, s, sh, d, m >> : P \in PosFour \cup { <<0,5>>, <<-13,14>> },
                                                   y \in { -20, -11, 0, 1, 9 }, s \in YstepAll,
                                                   sh \in ShapeTwo \cup { <<8,8>>, <<11,11>> }, d \in { -9, 5 }, m \in { -13, 6 } } :
-                  (7 * K[1][1] + 3 * K[1][2] + 5 * K[2] + K[3][1] + 2 * K[4][1] + K[5] + K[6]) % 11 = 0 }
+                  (7 * K[1][1] + 3 * K[1][2] + 5 * K[2] + K[3][1] + 2 * K[4][1] + K[5] + K[6]) % 13 = 0 }
 RPosSet    == { <<0,0>>, <<13,-7>>, <<-22,9>>, <<-10,-31>>, <<5,38>>, <<30,21>>,
                 <<60,-35>>, <<-47,50>>, <<-2,-70>>, <<74,1>>, <<-41,-12>>, <<18,18>> }
-RNyAll     == { 40, 41 }
+RNyAll     == { 12, 13, 40, 41 }        \* 12, 13: iradon pads the projections to its floor of 64; disc radius <= 5 steps
 RScanAll   == { 180, 360 }
 ROffAll    == -20..20
 ROffQuick  == { -20, -13, -6, 0, 1, 7, 20 }
@@ -408,6 +449,19 @@ AngSeq == << <<1,0,1>>, <<0,1,1>>, <<-1,0,1>>, <<0,-1,1>>, <<4,3,5>>, <<3,-4,5>>
              <<12,5,13>>, <<5,-12,13>>, <<24,7,25>>, <<-7,24,25>> >>
 ASSUME { AngSeq[k] : k \in 1..Len(AngSeq) } = Ang
 
+\* geometry.py 278-309  fit_sine_wave / sx_sy_y0_from_dty_omega: the inverse of dty_values_grain_in_beam.
+\* dty = y0 - sx sin(om) - sy cos(om) is linear in (sx, sy, y0): three projections at distinct angles
+\* determine the point and the axis exactly (Cramer's rule on n dty = -s sx - c sy + n y0).
+FitRow(a)  == << -a[2], -a[1], a[3] >>
+FitMat(t)  == << FitRow(AngSeq[t[1]]), FitRow(AngSeq[t[2]]), FitRow(AngSeq[t[3]]) >>
+FitSolve(t, d) ==
+  LET m == FitMat(t)
+      A == Adj(m)
+      b == [ k \in 1..3 |-> QMul(Q(AngSeq[t[k]][3]), d[k]) ]
+  IN  [ i \in 1..3 |-> QDiv(QAdd(QAdd(QMul(Q(A[i][1]), b[1]), QMul(Q(A[i][2]), b[2])), QMul(Q(A[i][3]), b[3])), Q(Det(m))) ]
+FitTriples == { <<1,2,5>>, <<3,6,9>>, <<4,7,10>>, <<5,7,9>> }        \* the last one: three angles within 21 degrees
+ASSUME \A i, j, k \in 1..Len(AngSeq) : (i < j /\ j < k) => Det(FitMat(<<i, j, k>>)) # 0
+
 InitRecon ==
   /\ \E ny \in RNy, oh \in ROffH, Pq \in RPosQ, ys \in RYstep, sc \in RScan, pm \in RPadMode, ym \in RYminMode :
        LET qs   == QMul(ys, <<1, 4>>)                     \* quarter step
@@ -422,7 +476,8 @@ InitRecon ==
                       offh |-> oh, pq |-> Pq, yminmode |-> ym ]
   /\ stage = 0
   /\ rec = [ shift |-> Q(0), ownpad |-> 0, glo |-> 0, ghi |-> 0, gridn |-> 0, pbppad |-> 0,
-             pad |-> 0, outsize |-> 0, diag |-> 0, ximono |-> TRUE, pred |-> << Q(0), Q(0) >>, ang |-> << >>, grids |-> << >> ]
+             pad |-> 0, outsize |-> 0, diag |-> 0, ximono |-> TRUE, pred |-> << Q(0), Q(0) >>, ang |-> << >>, grids |-> << >>,
+             fit |-> << >> ]
   /\ frame = "sample" /\ pos = Null /\ dty = Q(0) /\ phase = 0 /\ dtyi = NoI /\ seen = Null /\ op = << >>
   /\ jobs = Null
 
@@ -465,7 +520,9 @@ Predict ==
                                    dib == DtyInBeam(P, cfg.y0, a)
                                    u   == DtyiArg(dib, cfg.ystep, cfg.ymin)
                                IN  [ a |-> a, dib |-> dib, row |-> QRoundHalfEven(u), tie |-> QIsHalf(u),
-                                     vlo |-> VoxLo(u), vhi |-> VoxHi(u), vtie |-> QIsInt(u) ] ] ]
+                                     vlo |-> VoxLo(u), vhi |-> VoxHi(u), vtie |-> QIsInt(u) ] ],
+                  \* what a fit of (sx, sy, y0) to the in-beam dty of the point has to return
+                  !.fit  = FitSolve(<<5,7,9>>, [ k \in 1..3 |-> DtyInBeam(P, cfg.y0, AngSeq[<<5,7,9>>[k]]) ]) ]
   /\ RUnch
 
 NextRecon == ShiftAndPad \/ StepGrid \/ ChoosePad \/ Predict
@@ -505,13 +562,77 @@ XiZeroCharacterised == stage >= 3 => (rec.ximono <=> QLt(QAbs(rec.shift), Q(1)))
 \* ... edge-padded shifts always do
 XiEdgeIncreasing ==
   stage >= 3 => \A r \in 0..(rec.diag - 2) : QLt(XiEdge(r, rec.diag, rec.shift), XiEdge(r + 1, rec.diag, rec.shift))
+\* the in-beam dty at any three distinct angles gives back the point and the rotation axis
+FitInverts ==
+  stage = 4 => /\ rec.fit = << cfg.sx, cfg.sy, cfg.y0 >>
+               /\ \A t \in FitTriples :
+                    FitSolve(t, [ k \in 1..3 |-> rec.ang[t[k]].dib ]) = << cfg.sx, cfg.sy, cfg.y0 >>
 TypeRecon == stage \in 0..4
 
 EmitRecon == stage = 4 => PrintT("@@" \o ToJson([ cfg |-> cfg, rec |-> rec ]))
 
 \* =====================================================================================
-\* 3. PART  (roi_iradon.iradon: jobs = [todo[j::workers] for j in range(workers)])
+\* 3. PART  (roi_iradon.iradon 190-201)
+\*      if workers is None or workers < 1: workers = cores_available()
+\*      ThreadPoolExecutor(max_workers = POOL) ; jobs = [ todo[j::STRIDE] for j in range(POOL) ]
+\*    The code has STRIDE = POOL = workers.  The machine keeps the two apart (cfg.w = stride,
+\*    cfg.p = pool size = number of jobs) and explores every pair, because the pool size is what a
+\*    resource cap (cpu affinity, OMP_NUM_THREADS, a batch allocation) would change: the partition
+\*    law is stated for every pair, the code's law is one line through the table.
 \* =====================================================================================
+\* the worker count the code works with for a request (0 stands for None / < 1) on `cores` usable cpus
+EffWorkers(req, cores) == IF req < 1 THEN cores ELSE req
+\* pool size and stride the code derives from it (roi_iradon.py 197-199)
+PoolOf(req, cores)   == EffWorkers(req, cores)
+StrideOf(req, cores) == EffWorkers(req, cores)
+
+InitPart ==
+  /\ \E n \in 1..PMaxN, w \in 1..PMaxW, p \in 1..PMaxP : cfg = [ n |-> n, w |-> w, p |-> p ]
+  /\ jobs = << >>
+  /\ stage = 0 /\ rec = Null
+  /\ frame = "sample" /\ pos = Null /\ dty = Q(0) /\ phase = 0 /\ dtyi = NoI /\ seen = Null /\ op = << >>
+
+TakeJob ==
+  /\ Len(jobs) < cfg.p
+  /\ jobs' = Append(jobs, Slice(cfg.n, Len(jobs), cfg.w))
+  /\ UNCHANGED << cfg, frame, pos, dty, phase, dtyi, seen, op, stage, rec >>
+
+NextPart == TakeJob
+SpecPart == InitPart /\ [][NextPart]_vars
+
+PMin(a, b) == IF a <= b THEN a ELSE b
+\* the jobs that contain projection i (a job is increasing - JobsWellFormed - so it holds i at most once)
+Owners(i) == { j \in 1..Len(jobs) : \E k \in 1..Len(jobs[j]) : jobs[j][k] = i }
+Dropped    == { i \in 0..(cfg.n - 1) : Owners(i) = {} }
+Duplicated == { i \in 0..(cfg.n - 1) : Cardinality(Owners(i)) > 1 }
+IsPartition == Dropped = {} /\ Duplicated = {}
+PartDone == Len(jobs) = cfg.p
+\* jobs taken from distinct residues never overlap; a pool larger than the stride takes a residue twice
+JobsDisjointSoFar == (Len(jobs) <= cfg.w \/ cfg.n <= cfg.w) => Duplicated = {}
+JobsWellFormed ==
+  \A j \in 1..Len(jobs) : \A k \in 1..Len(jobs[j]) :
+     /\ jobs[j][k] \in 0..(cfg.n - 1)
+     /\ jobs[j][k] % cfg.w = (j - 1) % cfg.w
+     /\ k > 1 => jobs[j][k-1] < jobs[j][k]
+\* THE PARTITION LAW, every (stride, pool) pair: todo[j::w], j < p, is a partition of the n projections
+\* exactly when every non-empty residue class is taken (p >= min(w, n)) and none is taken twice
+PartitionCharacterised ==
+  PartDone => ( IsPartition <=> ( PMin(cfg.w, cfg.n) <= cfg.p /\ (cfg.p <= cfg.w \/ cfg.n <= cfg.w) ) )
+\* what a pool smaller than the stride loses: exactly the projections in the residue classes >= p
+DroppedCharacterised ==
+  PartDone => Dropped = { i \in 0..(cfg.n - 1) : i % cfg.w >= cfg.p }
+\* the pair the code produces for a request, on any number of usable cpus, is a partition
+CodeLawIsPartition ==
+  PartDone => \A req \in 0..PMaxW, cores \in 1..PMaxP :
+                (StrideOf(req, cores) = cfg.w /\ PoolOf(req, cores) = cfg.p) => IsPartition
+PartitionOK == (PartDone /\ cfg.p = cfg.w) => IsPartition
+TypePart == cfg.n \in 1..PMaxN /\ cfg.w \in 1..PMaxW /\ cfg.p \in 1..PMaxP /\ Len(jobs) <= cfg.p
+EmitPart ==
+  PartDone => PrintT("@@" \o ToJson([ n |-> cfg.n, w |-> cfg.w, p |-> cfg.p, jobs |-> jobs, ok |-> IsPartition,
+                                      ndrop |-> Cardinality(Dropped), ndup |-> Cardinality(Duplicated),
+                                      law |-> (\E req \in 0..PMaxW, cores \in 1..PMaxP :
+                                                  StrideOf(req, cores) = cfg.w /\ PoolOf(req, cores) = cfg.p) ]))
+=============================================================================
 InitPart ==
   /\ \E n \in 1..PMaxN, w \in 1..PMaxW : cfg = [ n |-> n, w |-> w ]
   /\ jobs = << >>
